@@ -70,7 +70,7 @@ def _probe(t):
         out["actions"] = r.get("actions")
         return out
     old = signal.signal(signal.SIGALRM, _to)
-    signal.alarm(30)
+    signal.alarm(monitor.case_timeout())
     try:
         try:
             s = lib.quiet(C.build, t)
